@@ -229,7 +229,7 @@ def main(argv=None):
     jobs = [(modname, i, units[i]) for i in order]
     nproc = max(1, min(args.jobs, n_units))
     ctx = mp.get_context('fork')
-    with ctx.Pool(nproc, initializer=_worker_init, maxtasksperchild=None) as pool:
+    with ctx.Pool(nproc, initializer=_worker_init, maxtasksperchild=1) as pool:
         for idx, packed, err in pool.imap_unordered(_run_unit, jobs, chunksize=1):
             if err:
                 errors.append((idx, err))
@@ -252,9 +252,6 @@ def main(argv=None):
         print(f'HARNESS-ERROR property={prop}: {len(errors)} work unit(s) crashed', flush=True)
         return 2
     bad_audit = [a for a in audit if not a[1]]
-    if bad_audit:
-        print(f'HARNESS-ERROR property={prop}: determinism audit failed for units {[units[a[0]] for a in bad_audit]!r}')
-        return 2
 
     findings = load_findings()
     known_seen = []
@@ -269,6 +266,7 @@ def main(argv=None):
 
     rc = 0
     replay_paths = []
+    unconfirmed = []
     for v in new_viol:
         # confirm twice from the recorded case before reporting
         ok = True
@@ -287,13 +285,24 @@ def main(argv=None):
             json.dump({'property': prop, 'signature': v['sig'], 'what': v['what'], 'case': v['case'],
                        'reproduced_twice': ok}, f, indent=1, default=_json_default)
         if not ok:
-            print(f"HARNESS-ERROR property={prop}: violation {v['sig']} did not reproduce from its recorded case "
-                  f"(uncaptured nondeterminism); see {path}")
-            return 2
+            # not a function of its recorded case alone: state leaked from an earlier execution of the same process
+            unconfirmed.append((v['sig'], path))
+            continue
         print(f"VIOLATION property={prop} replay={path}")
         print(f"  signature: {v['sig']}\n  what: {v['what']}")
         replay_paths.append(path)
         rc = 1
+
+    for sig, path in unconfirmed:
+        print(f"NOTE property={prop}: {sig} was observed but did not reproduce from its recorded case alone ({path})")
+    if unconfirmed and rc == 0:
+        print(f"HARNESS-ERROR property={prop}: {len(unconfirmed)} violation(s) did not reproduce from their recorded cases "
+              f"(state leaking between executions or uncaptured nondeterminism)")
+        return 2
+    if bad_audit and rc == 0:
+        # nothing the oracle objects to, yet a re-executed work unit observed something else: nondeterminism nobody owns
+        print(f'HARNESS-ERROR property={prop}: determinism audit failed for units {[units[a[0]] for a in bad_audit]!r}')
+        return 2
 
     states = len(total.state_hashes) + total.state_count
     exhaustive = not total.caps_hit
